@@ -304,5 +304,35 @@ theorem commit_exact_instance (cf f d : Path) (b : String) (m : Nat) (V : FS) (h
   · intro x hx; cases hx
   · intro _; exact hcf
 
+/-- the new cache file, written just before `_commit`, is left alone by it -/
+theorem commit_keeps_cache_file (vf vd : Path → Bool) (cf : Path) (oldFiles oldDirs errDirs : List Path) (fs : FS)
+    (b : String) (m : Nat) (h : fs.get cf = some (.file b m)) :
+    (commit vf vd cf oldFiles oldDirs errDirs fs).get cf = some (.file b m) :=
+  commit_keeps_file vf vd cf oldFiles oldDirs errDirs fs cf b m h (Or.inr (Or.inr rfl))
+
+/-- **the tree on disk after a committed build is the final world of the cache-logic model**: `FB.Impl.buildGo` ends
+    with the virtual tree `V` plus the new cache file (`V.write cf token 0`); if the physical tree at that moment is
+    `V` plus stale outputs plus directories only the disk knows (the hypotheses of `commit_exact`) and holds the new
+    cache file, then after `_commit` it is that world, at every path -/
+theorem commit_matches_model_world (cf : Path) (oldFiles oldDirs errDirs : List Path) (P V : FS) (b : String) (m : Nat)
+    (hwfV : TreeWF V)
+    (hsub : ∀ q, V.get q ≠ none → P.get q = V.get q)
+    (hfiles : ∀ q b m, q ≠ cf → P.get q = some (.file b m) → V.get q = none → q ∈ oldFiles)
+    (hdirs : ∀ q, P.get q = some .dir → V.get q = none → q ∈ errDirs ∨ q ∈ oldDirs)
+    (herr : ∀ d ∈ errDirs, V.isDir d = false)
+    (hcfdir : V.isDir cf.dropLast = true)
+    (hcache : P.get cf = some (.file b m)) :
+    ∀ q, (commit (fun p => V.isFile p) (fun p => V.isDir p) cf oldFiles oldDirs errDirs P).get q = (V.write cf b m).get q := by
+  intro q
+  have hcfne : cf ≠ [] := by intro e; rw [e, get_nil] at hcache; cases hcache
+  by_cases hq : q = cf
+  · subst hq
+    rw [commit_keeps_cache_file _ _ _ _ _ _ _ b m hcache]
+    unfold FS.write
+    rw [get_set_self _ _ _ hcfne]
+  · rw [commit_exact cf oldFiles oldDirs errDirs P V hwfV hsub hfiles hdirs herr (fun _ => hcfdir) q hq]
+    unfold FS.write
+    rw [get_set_ne _ _ _ _ hq]
+
 end Commit
 end FB
